@@ -11,7 +11,7 @@ cp $WT/seed_out/meta.json $OUT/meta.agent.json 2>/dev/null
 ( cd $WT && /venv/bin/python seed_out/demo.py > $OUT/demo_with.txt 2>&1 ); WITH=$?
 ( cd $WT && git apply -R $OUT/patch.diff && /venv/bin/python seed_out/demo.py > $OUT/demo_without.txt 2>&1 ); WITHOUT=$?
 ( cd $WT && git apply $OUT/patch.diff )
-BL=$(/venv/bin/python /tmp/bl_check.py $WT | head -1)
+BL=$(/venv/bin/python /verif/tools/bl_check_wt.py $WT | head -1)
 echo "demo with change: exit $WITH; without: exit $WITHOUT; tests: $BL"
 D=$(mktemp -d /tmp/kpseed.XXXXXX)
 cp -r /repo/kernpy /repo/README.md $D/
@@ -36,6 +36,6 @@ agent = json.load(open(out + '/meta.agent.json')) if os.path.exists(out + '/meta
 meta = {'id': '$ID', 'property': agent.get('property', '$PROPS'.split()[0]), 'summary': agent.get('summary'), 'needs': agent.get('needs'),
         'files': agent.get('files'), 'confirmed': {'demo_exit_with_change': $WITH, 'demo_exit_without_change': $WITHOUT, 'pinned_tests': '$BL'},
         'checks_run': json.loads('[' + '''$RES'''.rstrip(',') + ']'),
-        'ran': ['demo.py with and without the change in the scratch worktree', '/tmp/bl_check.py <worktree>', 'patch applied to a scratch copy of /repo; KERNPY_REPO=<copy> ./check <property> -q']}
+        'ran': ['demo.py with and without the change in the scratch worktree', '/verif/tools/bl_check_wt.py <worktree>', 'patch applied to a scratch copy of /repo; KERNPY_REPO=<copy> ./check <property> -q']}
 json.dump(meta, open(out + '/meta.json', 'w'), indent=1)
 PY
